@@ -426,7 +426,12 @@ fn run_history(rep: &mut Report, seed: u64, len: usize) -> (Vec<String>, Vec<Str
                 // verdicts by construction
                 let noncontextual = !matches!(fault, Fault::NoOutputs | Fault::DupCellDep);
                 let time_rel = fault != Fault::Immature;
-                let capacity = fault != Fault::CapacityOverflow;
+                // (an output below its occupied capacity - the cells get small after many splits -
+                // is the same verdict class: InsufficientCellCapacity)
+                let lacks = tx.outputs().into_iter().any(|o| {
+                    o.is_lack_of_capacity(ckb_types::core::Capacity::zero()).unwrap_or(true)
+                });
+                let capacity = fault != Fault::CapacityOverflow && !lacks;
                 let script = if fault == Fault::ScriptMissing { "-".to_string() } else { cycles.unwrap_or(0).to_string() };
                 let inputs: Vec<OutPoint> = tx.input_pts_iter().collect();
                 let deps: Vec<OutPoint> = tx.cell_deps_iter().map(|d| d.out_point()).collect();
